@@ -179,7 +179,7 @@ def strategy(tier):
 
 
 def budget(tier):
-    return 600 if tier == "quick" else 8000
+    return 1500 if tier == "quick" else 8000
 
 
 def make_value(case, use_bad):
